@@ -200,6 +200,30 @@ fn world(fields: &[String]) -> Vec<String> {
             }
             continue;
         }
+        // `S<index>:<program text>`: like E, but every S step of the case uses ONE shared directory whose util.sld keeps a counter
+        // (written once): two instances running program files next to the same library file
+        if let Some(sidx) = idx.strip_prefix('S') {
+            let sidx: usize = sidx.parse().unwrap();
+            let dir = std::env::var("HX_TMP").unwrap_or_else(|_| "/verif/build/tmp".to_string());
+            let wdir = format!("{}/wshared-{}-{:?}", dir, std::process::id(), std::thread::current().id());
+            std::fs::create_dir_all(&wdir).ok();
+            let lib = format!("{}/util.sld", wdir);
+            if !std::path::Path::new(&lib).exists() {
+                std::fs::write(&lib, "(define-library (util) (import (scheme base)) (export f) (begin (define n 0) (define (f) (set! n (+ n 1)) n)))").ok();
+            }
+            let path = std::path::PathBuf::from(format!("{}/prog{}.scm", wdir, out.len()));
+            std::fs::write(&path, text).ok();
+            match insts.get_mut(sidx) {
+                Some(it) => match std::panic::catch_unwind(std::panic::AssertUnwindSafe(|| it.eval_file(path))) {
+                    Ok(Ok(Some(v))) => out.push(format!("V {}", crate::canon_value(&v))),
+                    Ok(Ok(None)) => out.push("N".to_string()),
+                    Ok(Err(e)) => out.push(crate::canon_err(&e)),
+                    Err(p) => out.push(crate::panic_message(p)),
+                },
+                None => out.push("X no-instance".to_string()),
+            }
+            continue;
+        }
         // `R<index>:<name>=<source>`: register a library source on that instance (result `reg-ok` or the error)
         if let Some(ridx) = idx.strip_prefix('R') {
             let ridx: usize = ridx.parse().unwrap();
